@@ -180,3 +180,45 @@ PROP["trusted_base"] = [a.replace(
     "displayWalk / pathmap.add nesting is modelled (RX.displayWalk, Pipeline.cliGroupOf) and proved faithful "
     "(C01.cli_group_display_faithful); the decoding of the wire bytes into the Pipeline model's index-form responses is "
     "not composed with C12's protobuf-shaped receive model") for a in PROP["trusted_base"]]
+
+# session restarts (Reset at every ended target stream): Model/Pipeline.lean §9 (StepR, Sys.runR), Spec/Relay.lean
+# (viewR, lastSession), Lemmas/PipelineRestart.lean, Props/C01Restart.lean; e2e scenario items <i>R / <i>Z
+PROP["modules"] += ["Gnmi.Lemmas.PipelineRestart", "Gnmi.Props.C01Restart"]
+PROP["theorems"] += ["Gnmi.C01." + t for t in [
+    "collector_cache_holds_final_view_restart", "no_stale_leaf_after_restart", "pipeline_faithful_once_restart",
+    "pipeline_faithful_stream_restart", "pipeline_faithful_restart", "stream_holdsExpected", "restart_generalises",
+    "start_holds3",
+    # non-vacuity, and necessity of the Reset callback (the clean-EOF witness)
+    "stepsR_senders", "stepsR_hyps", "stepsR_exact", "stepsR_split", "stepsR_ids", "skipping_reset_leaves_stale_leaf"]] + [
+    "Gnmi.Relay." + t for t in [
+    "reset_relay", "Holds3.reset", "Holds3.connectError", "Holds3.stepR", "Holds3.runR", "viewR_lastSession",
+    "wellFormedR_sessions", "lastSession_mem", "lastSession_lift", "sessionsOf_lift"]] + [
+    "Gnmi.C01S." + t for t in ["eventsP_reset", "eventsP_connectError", "sys_reset", "sys_connectError", "run_tr4_R"]] + [
+    "Gnmi.Pipeline.Sys.runR_lift"]
+PROP["manifest"]["level_text"] += (
+    " Session restarts (Props/C01Restart.lean): the run type Pipeline.StepR adds the end of a target's session - "
+    "manager.handleUpdates calls the Reset callback = cache.Reset whenever Recv fails (error, clean io.EOF, receive timeout, "
+    "forced reconnect), monitor records cache.ConnectError - and the spec resets the target's view to empty there "
+    "(Relay.viewR; expected = final view of the target's LAST session). For every interleaving of sessions with any number "
+    "of restarts per target at any points, each session well formed on its own (timestamps may start over): the cache holds "
+    "exactly each target's last-session view (collector_cache_holds_final_view_restart, no_stale_leaf_after_restart; "
+    "C14.reset_clears + per-target frame), a ONCE client holds exactly Relay.expected of it (pipeline_faithful_once_restart) "
+    "and so does a STREAM client that subscribed anywhere, before or between restarts (pipeline_faithful_stream_restart: it is "
+    "sent the Reset's T/<root>/* deletes; C04Seq's history type covers Reset, so not partial; same extra hypotheses as "
+    "pipeline_faithful_stream_nondecreasing). Runs without restarts are the old runs (restart_generalises, Sys.runR_lift). "
+    "skipping_reset_leaves_stale_leaf: the same run without the reset step keeps a leaf the target no longer has. The e2e "
+    "correspondence ends sessions cleanly (target returns nil -> io.EOF) and abruptly, through the real manager.handleUpdates "
+    "(run mode direct) and the real manager.Manager against a scripted multi-session gNMI server (run mode agent).")
+PROP["assumptions"] = [a.replace(
+    "sessions stay up (no Reset): a stream that ends makes the manager call cache.Reset, which empties the target "
+    "(C13, C14); quiescence = every response handled",
+    "a session that ends (Recv error of any kind, incl. io.EOF) is followed by cache.Reset and a new session whose stream is "
+    "well formed on its own; a target's final state is what its last session carried; quiescence = every response handled "
+    "(that the manager does resubscribe, and the receive-timeout / forced-reconnect paths into the same Recv error: C13)")
+    for a in PROP["assumptions"]]
+PROP["rule"] += ("; session restarts: a target's session is cut (R: error status) or closed cleanly by the target (Z: handler "
+                 "returns nil, io.EOF at the collector) 1-2 times in a third of the targets, the target coming back with "
+                 "fewer leaves, possibly an earlier clock, possibly an empty session - in run mode direct through the real "
+                 "receive loop manager.handleUpdates on a scripted stream, in run mode agent through manager.Manager and a "
+                 "scripted multi-session gNMI server; exhaustive scope: every subscription point across a restart, both kinds; "
+                 "corpus/C01/clean_eof_then_smaller_state.ops")
